@@ -1,6 +1,4 @@
 #!/bin/sh
-# thorough sweep: sh vp/sweep.sh C01 C02 ...   (run from /verif or a snapshot of it)
+# thorough sweep: sh vp/sweep.sh C01 C02 ...   (run from /verif or a snapshot of it); 4 checks at a time
 /venv/bin/python -m vp.setup > /dev/null 2>&1
-for p in "$@"; do
-  VERIF_TIER=thorough /venv/bin/python -m vp.check $p 2>&1 | grep -E "^\[C|^VIOLATION|^KNOWN|^INFRA" | cut -c1-220
-done
+printf "%s\n" "$@" | xargs -P 4 -I{} sh -c 'VERIF_TIER=thorough /venv/bin/python -m vp.check {} 2>&1 | grep -E "^\[C|^VIOLATION|^INFRA" | cut -c1-220'
